@@ -145,7 +145,7 @@ def build(target, quiet=False):
     return exe
 
 
-def _gc_builds(keep, maxdirs=6):
+def _gc_builds(keep, maxdirs=24):
     try:
         ds = [os.path.join(BUILD, d) for d in os.listdir(BUILD) if re.fullmatch(r"[0-9a-f]{16}-\w+", d)]
     except OSError:
